@@ -104,6 +104,23 @@ theorem stale_hash_witness (cls : String) (h : Nat) (hc : cls ≠ dataTypeCls) :
 theorem copy_eq (hashOf : Val → Option Nat) (t : Val) (hwf : t.WF) (hn : t.isNode = true) :
     copy hashOf t = some t := copy_eq_real hashOf t hwf hn
 
+/-- **the copy shares no node**: in the object graph `__deepcopy__` builds, every child ref points forwards to a cell
+    this copy allocated and every parent index points backwards to one — no dangling index, no cycle, nothing reachable
+    that was not freshly instantiated (`vs.__class__()`), whatever the source's hash caches -/
+theorem copy_shares_no_node (hashOf : Val → Option Nat) (t : Val) (B : List Cell)
+    (h : copyArena hashOf t = some B) : RInv B := copy_closed hashOf t B h
+
+/-- the only `_hash` values a copy can carry are cached hashes of source nodes (`copy._hash = node._hash`, possibly
+    cleared again by the `set` / `append` that attach its children): none is invented, so with an unhashed source the
+    copy is unhashed -/
+theorem copy_hashes_from_source (hashOf : Val → Option Nat) (t : Val) (B : List Cell)
+    (h : copyArena hashOf t = some B) : HInv hashOf B := SqlglotModel.Serde.copy_hashes_from_source hashOf t B h
+
+/-- **which payload lists `load` accepts**, exactly: the empty list; otherwise the first payload has a CLASS (`mkRoot`),
+    and every later payload builds a cell by itself, has an ARG_KEY, and an INDEX naming an *earlier* payload that built
+    an Expression (see `accepts` / `tailOK`). For every accepted list `load_no_dangling` applies. -/
+theorem load_accepts (ps : List Payload) : (loadArena ps).isSome = accepts ps := loadArena_accepts ps
+
 /-- facts re-extracted from sqlglot/serde.py and expressions/core.py on every run: the eight payload keys are pairwise
     distinct (a collision would make two payload fields overwrite each other), the DType marker is the modelled one,
     the guards and the meta comprehensions of dump/load/_load are the modelled ones, and `__reduce__` returns exactly
@@ -157,6 +174,11 @@ example : ∃ A, loadArena (dump sample) = some A ∧ AInv A := by
 example : JsonValue (.list (payloadsToPy genKeys (dump sample))) := dump_json genKeys sample
 
 example : copy (fun _ => some 7) sample = some sample := copy_eq _ sample sample_wf.1 rfl
+
+/-- a payload whose INDEX points at itself (Python would build a cyclic tree) or at a scalar is refused -/
+example : accepts [.mk none none false (some "X") none none none none,
+                   .mk (some 1) (some "this") false (some "Y") none none none none] = false := by
+  simp [accepts, tailOK, mkRoot, mkCell, mkObj, loadTy, loadMeta, dataTypeCls, pIndex, pKey, Cell.isNodeC]
 
 /-- the normal form really differs from the tree (the theorem is not about the identity) -/
 example : sample.norm.size < sample.size := by decide +kernel
